@@ -427,6 +427,21 @@ func c9templates() (valid [][2]string, mismatch []string) {
 		add("func (t *T) Down(n int, a float64) float64 {\n\tif n == 0 {\n\t\treturn a\n\t}\n\treturn t.Down(n-1, a+0.5)\n}\n\n",
 			fmt.Sprintf("\tt := &T{}\n\tfmt.Println(t.Down(%d, 0))\n", depth), fmt.Sprintf("%v\n", float64(depth)*0.5))
 	}
+	// typed multi-name declarations fed by a multi-result call, in the middle of other live locals
+	add("func two() (int, int) {\n\treturn 3, 4\n}\n\nfunc three() (float64, float64, float64) {\n\treturn 1, 2, 3\n}\n\n",
+		"\tp := 100\n\tvar a, b int = two()\n\tq := 200\n\tvar x, y, z float64 = three()\n\tvar c, d = two()\n\tfmt.Println(p+a+b+q, a, b, x/2, y/2, z/2, c, d)\n",
+		"307 3 4 0.5 1 1.5 3 4\n")
+	// constants converted to the parameter type at every depth of a recursion whose frames hold locals, entered at
+	// every stack alignment (pad = number of enclosing frames with a local)
+	for _, depth := range []int{0, 1, 2, 3, 10, 100, 1000, 3000} {
+		var body strings.Builder
+		for pad := 0; pad < 12; pad++ {
+			fmt.Fprintf(&body, "\tfmt.Println(pad(%d, %d))\n", pad, depth)
+		}
+		want := strings.Repeat(fmt.Sprintf("%v\n", float64(depth+1)*0.5), 12)
+		add("func rec(n int, f float64, s string) float64 {\n\tx := f / 2\n\tt := s + \"!\"\n\tif n == 0 || len(t) != 2 {\n\t\treturn x\n\t}\n\treturn rec(n-1, 1, \"s\") + x\n}\n\nfunc pad(k int, n int) float64 {\n\tl := k\n\tif l > 0 {\n\t\treturn pad(l-1, n)\n\t}\n\treturn rec(n, 1, \"s\")\n}\n\n",
+			body.String(), want)
+	}
 	// return f() forwarding inside a function literal whose result count differs from the enclosing function's
 	retT := []string{"int", "string", "float64"}
 	sigOf := func(n int) string {
